@@ -116,13 +116,17 @@ def families_for(n, exact_only=False, rough=True):
 
 
 @st.composite
-def problem_recipe(draw, dims=(1, 2, 3, 4, 5), exact_only=False, families=None, densities=(10,), styles=False):
+def problem_recipe(draw, dims=(1, 2, 3, 4, 5), exact_only=False, families=None, densities=(10,), styles=False,
+                   offsets=False):
     n = draw(st.sampled_from(list(dims)))
     fams = families if families is not None else families_for(n, exact_only)
     fams = [f for f in fams if (f != "pwl1" or n == 1)]
     box = draw(boxes(n))
     rec = {"n": n, "lower": box["lower"], "upper": box["upper"],
            "obj": draw(objective(n, fams)), "density": draw(st.sampled_from(list(densities)))}
+    if offsets and draw(st.integers(0, 3)) == 0:
+        # a level that is large compared with the variation of the objective (either sign)
+        rec["obj"] = dict(rec["obj"], offset=draw(st.sampled_from([-1.0, 1.0])) * float(10.0 ** draw(st.integers(2, 7))))
     if styles:
         # how the user-written problem hands its value back (see LoggedProblem): mostly the shipped convention
         style = {"holder": draw(st.sampled_from(["same", "same", "same", "fresh"])),
@@ -173,9 +177,12 @@ def compositions(draw, total, max_parts=6):
 
 
 @st.composite
-def shipped_recipe(draw):
+def shipped_recipe(draw, grishagin=False):
     """A cheap shipped benchmark problem as recipe (used by the differential checks)."""
-    name = draw(st.sampled_from(["hill", "shekel", "rastrigin", "xsquared", "gkls"]))
+    name = draw(st.sampled_from(["hill", "shekel", "rastrigin", "xsquared", "gkls"] + (["grishagin"] * 2 if grishagin else [])))
+    if name == "grishagin":
+        # the first members of a decade are the cheap ones to construct
+        return {"shipped": [name, draw(st.sampled_from([1, 2, 3, 11, 12, 21, 31, 41]))], "density": 10}
     if name in ("hill", "shekel"):
         arg = draw(st.integers(0, 999))
     elif name in ("rastrigin", "xsquared"):
